@@ -11,6 +11,7 @@ package zzinputs
 
 import (
 	"bufio"
+	"bytes"
 	"context"
 	"encoding/json"
 	"errors"
@@ -153,6 +154,21 @@ type modelEC struct {
 	w    *world
 	c    *caseIn
 	head int
+	// noncanon: hand out power entries in an order that is not the canonical power-table order (EC makes no
+	// promise about the order; gpbft.PowerTable.Add sorts). Only switched on around GetCommittee: the proposal's
+	// power-table CIDs are by design computed over the entries exactly as EC returns them.
+	noncanon bool
+}
+
+// recVerifier remembers the key list of the last Aggregate call, i.e. what the committee's aggregate verifier is keyed on.
+type recVerifier struct {
+	gpbft.Verifier
+	last []gpbft.PubKey
+}
+
+func (v *recVerifier) Aggregate(keys []gpbft.PubKey) (gpbft.Aggregate, error) {
+	v.last = append([]gpbft.PubKey(nil), keys...)
+	return v.Verifier.Aggregate(keys)
 }
 
 var _ ec.Backend = (*modelEC)(nil)
@@ -189,7 +205,15 @@ func (m *modelEC) GetPowerTable(_ context.Context, k gpbft.TipSetKey) (gpbft.Pow
 	if id < 1 || id > len(m.c.Par) {
 		return nil, fmt.Errorf("unknown tipset %q", k)
 	}
-	return m.w.table(id), nil
+	e := m.w.table(id)
+	if m.noncanon {
+		r := make(gpbft.PowerEntries, len(e))
+		for i := range e {
+			r[len(e)-1-i] = e[i]
+		}
+		return r, nil
+	}
+	return e, nil
 }
 func (m *modelEC) Finalize(context.Context, gpbft.TipSetKey) error { return nil }
 
@@ -262,7 +286,9 @@ func (w *world) buildCerts(c *caseIn) ([]*certs.FinalityCertificate, error) {
 }
 
 type node struct {
-	in *f3.VerifInputs
+	in  *f3.VerifInputs
+	ec  *modelEC
+	ver *recVerifier
 }
 
 func (w *world) newNode(c *caseIn, head int, crts []*certs.FinalityCertificate) (*node, error) {
@@ -287,7 +313,8 @@ func (w *world) newNode(c *caseIn, head int, crts []*certs.FinalityCertificate) 
 	m.Gpbft.ChainProposedLength = c.Plen
 	clk := clock.NewMock()
 	clk.Set(t0.Add(time.Duration(c.Now) * period / 2))
-	return &node{in: f3.VerifNewInputs(m, cs, &modelEC{w: w, c: c, head: head}, w.sb, clk)}, nil
+	mec, ver := &modelEC{w: w, c: c, head: head}, &recVerifier{Verifier: w.sb}
+	return &node{in: f3.VerifNewInputs(m, cs, mec, ver, clk), ec: mec, ver: ver}, nil
 }
 
 func errStr(err error) string {
@@ -318,16 +345,25 @@ func (w *world) proposal(r *rec, n *node, name string, inst uint64) {
 }
 
 func (w *world) committee(n *node, i uint64) ev {
+	n.ec.noncanon, n.ver.last = true, nil
 	com, err := n.in.GetCommittee(context.Background(), i)
+	n.ec.noncanon = false
 	if err != nil {
-		return ev{"err": true, "tab": -1, "beacon": -1, "errs": errStr(err)}
+		return ev{"err": true, "tab": -1, "beacon": -1, "aggcanon": true, "errs": errStr(err)}
+	}
+	// the committee's aggregate verifier must be keyed on the power table's own (canonical) key order: signer
+	// indices of every justification and certificate refer to positions in that table
+	canon := com.PowerTable.Entries.PublicKeys()
+	aggcanon := com.AggregateVerifier != nil && len(canon) == len(n.ver.last)
+	for k := 0; aggcanon && k < len(canon); k++ {
+		aggcanon = bytes.Equal(canon[k], n.ver.last[k])
 	}
 	c, cerr := certs.MakePowerTableCID(com.PowerTable.Entries)
 	tab := -1
 	if cerr == nil {
 		tab = w.tableID(c)
 	}
-	return ev{"err": false, "tab": tab, "beacon": idOf("B", com.Beacon), "errs": ""}
+	return ev{"err": false, "tab": tab, "beacon": idOf("B", com.Beacon), "aggcanon": aggcanon, "errs": ""}
 }
 
 func (w *world) runCase(t *testing.T, r *rec, c *caseIn) {
@@ -394,7 +430,9 @@ func (h *stubHost) SetAlarm(time.Time)                     {}
 func (h *stubHost) Verify(k gpbft.PubKey, msg, sig []byte) error {
 	return h.sb.Verify(k, msg, sig)
 }
-func (h *stubHost) Aggregate(keys []gpbft.PubKey) (gpbft.Aggregate, error) { return h.sb.Aggregate(keys) }
+func (h *stubHost) Aggregate(keys []gpbft.PubKey) (gpbft.Aggregate, error) {
+	return h.sb.Aggregate(keys)
+}
 func (h *stubHost) ReceiveDecision(context.Context, *gpbft.Justification) (time.Time, error) {
 	return h.now, nil
 }
